@@ -73,6 +73,9 @@ def boot(workdir=None, stub_svg=True):
     dawgie.context.data_stg = os.path.join(workdir, 'stg')
     dawgie.context.fe_path = os.path.join(workdir, 'fe')
     dawgie.context.ae_base_path = os.path.join(workdir, 'ae')
+    # fe.submit.Process walks up from ae_base_path until it finds a `.git` DIRECTORY (and would walk for ever where
+    # there is none, e.g. inside a git worktree whose .git is a file): the scratch engine is its own repository root
+    os.makedirs(os.path.join(workdir, 'ae', '.git'), exist_ok=True)
     dawgie.context.git_rev = 'rev0'
     _state.update(reactor=reactor, workdir=workdir)
     return reactor, workdir
